@@ -19,7 +19,9 @@ def syntax_fault_cases(tier, rng):
     out = []
     progs = VALID + [p.decode('latin-1') for p in C01.corpus_programs() if len(p) < 1500][:10]
     for src in progs:
-        src = 'OUTPUT "sentinel-first"\nOPENFILE "sentinel.txt" FOR WRITE\nCLOSEFILE "sentinel.txt"\n' + src
+        # literals with every escape, a comment and a blank line in front: none of them may move a position
+        noise = rng.choice(['', 'DECLARE esc : STRING\nesc <- "l1\\nl2\\t\\"q\\" \\\\ end"\n', "DECLARE ech : CHAR\nech <- '\\n'\n// comment line\n\n", 'DECLARE e2 : STRING\ne2 <- "\\n\\n\\n" & "x"   // three escapes\n'])
+        src = 'OUTPUT "sentinel-first"\nOPENFILE "sentinel.txt" FOR WRITE\nCLOSEFILE "sentinel.txt"\n' + noise + src
         toks = TOKEN_RE.findall(src)
         idxs = [i for i, t in enumerate(toks) if t.strip(' ') != '']
         chosen = idxs if tier == 'thorough' else rng.sample(idxs, min(len(idxs), 30))
@@ -48,7 +50,7 @@ def runtime_fault_case(rng, depth, fault, pos):
         kind = rng.choice(['PROCEDURE', 'FUNCTION'])
         L.append('%s f%d(n : INTEGER)%s' % (kind, d, ' RETURNS INTEGER' if kind == 'FUNCTION' else ''))
         for _ in range(rng.randint(0, 2)):
-            L.append('  OUTPUT "in f%d"' % d)
+            L.append(rng.choice(['  OUTPUT "in f%d"' % d, '  OUTPUT "esc\\nline\\t\\"q\\"" & "\\\\"', "  OUTPUT '\\n', '\\''", '  // a comment', '', '  OUTPUT "a" & "\\n" & "b"   // trailing comment']))
         if d == depth:
             L.append('  ' + fault); line = len(L)
         else:
@@ -63,7 +65,7 @@ def runtime_fault_case(rng, depth, fault, pos):
         kinds_set(d, kind)
         chain.insert(0, chain_entry) if False else chain.append(chain_entry)
     for _ in range(pos):
-        L.append('OUTPUT "before"')
+        L.append(rng.choice(['OUTPUT "before"', 'OUTPUT "be\\nfore"', "OUTPUT '\\t'", '// comment before', '']))
     if depth == 0:
         L.append(fault); chain = [('Program', len(L))]
     else:
